@@ -76,6 +76,7 @@ fn main() {
         current: current.clone(),
         sub,
         corpus: arg(&args, "--corpus").map(|s| s.to_string()),
+        engine: arg(&args, "--engine").map(|s| s.to_string()),
     };
     if let Some(p) = arg(&args, "--dump") {
         let n: u64 = arg(&args, "--dump-n").and_then(|s| s.parse().ok()).unwrap_or(1000);
